@@ -4,7 +4,7 @@
 # (with the bitstream stand-in): the build command is taken from the comment at the top of demo.c.
 wt=$1; sub=$2; prop=$3
 sd=$wt/seed/$sub
-out=/verif/seeded/$prop-$sub
+out=/verif/seeded/$prop-${4:-$sub}
 mkdir -p $out $wt/demo_build
 log=$out/confirm.log
 : > $log
@@ -43,13 +43,13 @@ make -j8 >/dev/null 2>>$log || { echo "BUILD FAILED" >> $log; git checkout -q --
 make check -j8 > $wt/check.out 2>&1
 grep -E "^# (TOTAL|PASS|FAIL)|^FAIL" $wt/check.out >> $log
 pass=$(grep -E "^# PASS" $wt/check.out | head -1 | awk '{print $3}')
-( cd $sd && bash $wt/demo_build/build.sh ) >> $log 2>&1
+( cd $wt && rm -f $wt/demo_build/demo && bash $wt/demo_build/build.sh ) >> $log 2>&1
 ( cd $wt/demo_build && timeout 300 ./demo >/dev/null 2>&1 ); rc_mod=$?
 echo "demo with patch: exit $rc_mod" >> $log
 cd $wt; git checkout -q -- .; make -j8 >/dev/null 2>&1
 rm -f $wt/demo_build/demo
-( cd $sd && bash $wt/demo_build/build.sh ) >> $log 2>&1
+( cd $wt && rm -f $wt/demo_build/demo && bash $wt/demo_build/build.sh ) >> $log 2>&1
 ( cd $wt/demo_build && timeout 300 ./demo >/dev/null 2>&1 ); rc_clean=$?
 echo "demo without patch: exit $rc_clean" >> $log
 cp $sd/patch.diff $sd/demo.c $sd/meta.json $out/ 2>/dev/null
-if [ "$pass" = "82" ] && [ $rc_mod -ne 0 ] && [ $rc_clean -eq 0 ]; then echo "CONFIRMED $prop-$sub" | tee -a $log; else echo "NOT CONFIRMED $prop-$sub (pass=$pass mod=$rc_mod clean=$rc_clean)" | tee -a $log; fi
+if [ "$pass" = "82" ] && [ $rc_mod -ne 0 ] && [ $rc_clean -eq 0 ]; then echo "CONFIRMED $prop-${4:-$sub}" | tee -a $log; else echo "NOT CONFIRMED $prop-${4:-$sub} (pass=$pass mod=$rc_mod clean=$rc_clean)" | tee -a $log; fi
